@@ -43,6 +43,19 @@ theorem specTail_nostar_iff {q : Select} {fields : List Field} {src w : List Row
     refine ⟨lookupsS_some_iff.2 hres, ?_⟩
     split <;> rename_i hc <;> simp only [hc, if_true, if_false, Bool.false_eq_true] at h <;> exact h
 
+/-- a select list that starts with `*` has no meaning in a query that groups (an aggregate in the
+list or a GROUP BY) -/
+theorem specTail_groups_nostar {q : Select} {fields : List Field} {src w : List Row}
+    (hg : (!hasAggr q.list && q.groupBy.isEmpty) = false) (h : specTail q fields src = some w) :
+    isStar q.list = false := by
+  cases hs : isStar q.list with
+  | false => rfl
+  | true =>
+    unfold specTail at h
+    rw [Bool.and_comm] at hg
+    simp only [hs, if_true, any_isAgg_eq_hasAggr, hg, Bool.false_eq_true, if_false] at h
+    cases h
+
 /-! ### the GROUP BY positions -/
 
 theorem groupIdx_lt {sl : List DerivedCol} {g : ColRef} {i : Nat} (h : groupIdx sl g = some i) :
@@ -182,14 +195,40 @@ theorem aggregateRows_zero {sl : List DerivedCol} {gb : List ColRef}
   simp only [List.isEmpty_nil, hnp, Bool.and_self, Bool.false_eq_true, if_false, if_true]
   rfl
 
+/-- (after a select list that starts with `*` the rows are not projected and `aggregateStar` runs
+instead: the same on no rows) -/
 theorem aggregateRows_grouped {sl : List DerivedCol} {gb : List ColRef} {rows : List Row}
-    (hnp : (!hasAggr sl && gb.isEmpty) = false) (hne : (gb.isEmpty && rows.isEmpty) = false) :
+    (hnp : (!hasAggr sl && gb.isEmpty) = false) (hne : (gb.isEmpty && rows.isEmpty) = false)
+    (hs : isStar sl = false ∨ rows = []) :
     aggregateRows sl gb rows = (NoPanicP.groupIdxs sl gb >>= fun idxs =>
       mapX (fun g => mapX (fun (p : Nat × DerivedCol) => aggCell p.2.item p.1 g)
         ((List.range sl.length).zip sl)) (groupsOf (keyAt idxs) rows)) := by
   unfold aggregateRows
   simp only [hnp, hne, Bool.false_eq_true, if_false]
-  rfl
+  rcases hs with hs | rfl
+  · simp only [hs, Bool.false_eq_true, if_false]
+    rfl
+  · refine congrArg (NoPanicP.groupIdxs sl gb >>= ·) (funext fun idxs => ?_)
+    cases isStar sl <;> rfl
+
+/-- a select list that starts with `*` has no value on any row: `Projects` of it is of no rows -/
+theorem projects_star_nil {sl : List DerivedCol} {fields : List Field} {src : List Row}
+    (hproj : Projects sl fields src) : isStar sl = false ∨ src = [] := by
+  cases hs : isStar sl with
+  | false => exact .inl rfl
+  | true =>
+    right
+    cases src with
+    | nil => rfl
+    | cons r rs =>
+      exfalso
+      cases sl with
+      | nil => cases hs
+      | cons d rest =>
+        have hd : d.item = SelItem.star := by simpa [isStar] using hs
+        have h := hproj r (List.mem_cons_self ..) d (List.mem_cons_self ..)
+        rw [hd] at h
+        cases h
 
 /-! ### `aggregateRows` = the grouping part of the meaning -/
 
@@ -232,7 +271,7 @@ theorem aggregate_agree {q : Select} {fields : List Field} {src out : List Row}
         cases hsrc : src with
         | nil => exact absurd ⟨hg, hsrc⟩ hz
         | cons r rs => rfl
-    rw [aggregateRows_grouped hnp hne]
+    rw [aggregateRows_grouped hnp hne ((projects_star_nil hproj).imp id (fun e => by rw [e]; rfl))]
     cases hgi : q.groupBy.mapM (groupIdx q.list) with
     | none =>
       constructor
